@@ -22,7 +22,9 @@ S = 1_000_000
 SCENARIOS = [([0.0, 0.05, 0.3], 0.01, 1, None, 2, 4), ([0.0], 0.0, 1, None, 2, 4), ([0.2, 0.0, 0.05], 0.1, 1, None, 2, 4),
              ([0.0, 0.05, 0.3], 0.01, 2, None, 3, 8), ([0.05], 0.0, 2, 1, 2, 4), ([0.0, 0.05, 0.3], 0.01, 2, 2, 3, 6), ([0.05], 0.0, 2, 2, 3, 6),
              ([0.0, 0.05, 0.3], 0.01, 1, None, 2, 4, True), ([0.05], 0.0, 2, 2, 3, 6, True),
-             ([0.0], 0.0, 1, None, 2, 4, False, True), ([0.05, 0.0], 0.0, 1, None, 3, 6, False, True)]
+             ([0.0], 0.0, 1, None, 2, 4, False, True), ([0.05, 0.0], 0.0, 1, None, 3, 6, False, True),
+             # (Redis only) every command takes 3 loop iterations each way on the wire
+             ([0.0, 0.05], 0.0, 1, None, 2, 4, False, False, 3), ([0.0, 0.05, 0.3], 0.01, 1, None, 2, 4, False, True, 3)]
 
 
 class _LogDict(dict):
@@ -37,7 +39,7 @@ class _LogDict(dict):
         return super().__getitem__(k)
 
 
-async def one_run(loop, which, k, durs, graceful, n_queues=1, limit=None, tasks_limit=2, n_jobs=4, subscribers=False, eager=False):
+async def one_run(loop, which, k, durs, graceful, n_queues=1, limit=None, tasks_limit=2, n_jobs=4, subscribers=False, eager=False, latency=0):
     from repid import BasicConverter, Connection, InMemoryBucketBroker, Job, Queue, Router, Worker
     from repid._runner import _Runner
     if which == "redis":
@@ -120,6 +122,8 @@ async def one_run(loop, which, k, durs, graceful, n_queues=1, limit=None, tasks_
     kw = {} if limit is None else {"messages_limit": limit}
     worker = Worker(routers=[router], _connection=conn, handle_signals=[signal.SIGINT], graceful_shutdown_time=graceful,
                     tasks_limit=tasks_limit, **kw)
+    if latency and which == "redis":
+        w.srv.latency = latency
     fired: dict = {}
     loop.signal_handlers.clear()         # (a run that was never told to stop is cut by the guard below and leaves its handler behind)
 
@@ -145,7 +149,7 @@ async def one_run(loop, which, k, durs, graceful, n_queues=1, limit=None, tasks_
         _Runner._run_consumer = orig_rc
         loop.step_hook = None
     await asyncio.sleep(0.3)
-    for _ in range(80):
+    for _ in range(80 + 40 * latency):
         await asyncio.sleep(0)
     if which == "redis":
         pl = {i: [x[0] for x in p] for i, p in w.places().items()}
@@ -162,7 +166,7 @@ async def one_run(loop, which, k, durs, graceful, n_queues=1, limit=None, tasks_
     dup = [i for i, p in pl.items() if len(p) != 1]
     not_received = sorted(r[1] for cid, r in returned.items() if r[0] > received.get(cid, 0))
     return {"k": k, "durs": durs, "graceful": graceful, "queues": n_queues, "messages_limit": limit, "tasks_limit": tasks_limit, "jobs": n_jobs,
-            "subscribers": subscribers, "eager": eager, "err": err, "fired": fired.get("it"), "inflight": inflight, "dup": dup, "ghosts": ghosts,
+            "subscribers": subscribers, "eager": eager, "latency": latency, "err": err, "fired": fired.get("it"), "inflight": inflight, "dup": dup, "ghosts": ghosts,
             "places": pl, "ran": list(ran), "handed": dict(handed), "not_received": not_received}
 
 
@@ -177,9 +181,13 @@ def worker_stop_cuts(ctx, res) -> None:
         # the window in which the worker consumes starts later on RabbitMQ (its start-up takes some ninety iterations)
         for which, k0 in (("redis", 0), ("rabbit", 70)):
             for durs, graceful, nq, limit, tl, nj, *subs in SCENARIOS:
-                for k in range(k0, k0 + ctx.scale(90, 180) + (40 if subs and subs[0] else 0), 1):
+                lat = subs[2] if len(subs) > 2 else 0
+                if lat and which != "redis":
+                    continue
+                ks = range(0, ctx.scale(420, 700), 3) if lat else range(k0, k0 + ctx.scale(90, 180) + (40 if subs and subs[0] else 0), 1)
+                for k in ks:
                     loop.max_iterations = loop.iteration + 400_000
-                    o = await one_run(loop, which, k, durs, graceful, nq, limit, tl, nj, bool(subs and subs[0]), len(subs) > 1 and subs[1])
+                    o = await one_run(loop, which, k, durs, graceful, nq, limit, tl, nj, bool(subs and subs[0]), len(subs) > 1 and subs[1], lat)
                     o["broker"] = which
                     outs.append(o)
     try:
@@ -191,7 +199,7 @@ def worker_stop_cuts(ctx, res) -> None:
             res.count("worker_stop_runs_where_the_stop_came_after_the_end")      # the worker was idle: the hook never fired
             continue
         res.count("worker_stop_cut_runs")
-        res.add_case(f"wstop:{o['broker']}:{o['durs']}:{o['graceful']}:{o['queues']}:{o['messages_limit']}:{o['subscribers']}:{o['eager']}:{o['k']}:{sorted(o['places'].items())}", bool(o["ran"]))
+        res.add_case(f"wstop:{o['broker']}:{o['durs']}:{o['graceful']}:{o['queues']}:{o['messages_limit']}:{o['subscribers']}:{o['eager']}:{o['latency']}:{o['k']}:{sorted(o['places'].items())}", bool(o["ran"]))
         if o["err"]:
             res.failures.append(Failure("worker_on_broker_did_not_stop", f"{o['broker']}: run() did not return after the stop at iteration {o['k']}: {o['err']}",
                                         {"worker_stop_cut": {k: v for k, v in o.items() if k != "places"}}, None))
